@@ -25,13 +25,13 @@ MIME = {"png": "image/png", "jpeg": "image/jpeg", "gif": "image/gif", "bmp": "im
 FORMATS_IMG = {
     "docx": dict(types=["png", "jpeg", "gif", "bmp"], units=1, unit_attr=False, opts={"img_ref": ["relative", "relative", "absolute", "dot", "parent"]}),
     "pptx": dict(types=["png", "jpeg", "gif", "bmp"], units=3, unit_attr=True, opts={"img_ref": ["parent", "parent", "absolute", "relative"], "permute_parts": [False, True]}),
-    "xlsx": dict(types=["png", "jpeg", "gif", "bmp"], units=3, unit_attr=False, opts={"img_ref": ["parent", "absolute"], "permute_parts": [False, False, True], "disp": [False, False, True]}),
+    "xlsx": dict(types=["png", "jpeg", "gif", "bmp"], units=3, unit_attr=False, opts={"img_ref": ["parent", "absolute"], "permute_parts": [False, False, True], "disp": [False, False, True], "vml_first": [False, True]}),
     "odt": dict(types=["png", "jpeg", "gif", "bmp"], units=1, unit_attr=False, opts={"img_ref": ["relative", "relative", "dot"], "disp": [False, False, True]}),
     "odp": dict(types=["png", "jpeg", "gif", "bmp"], units=3, unit_attr=True, opts={"img_ref": ["relative", "relative", "dot"], "disp": [False, False, True]}),
     "ods": dict(types=["png", "jpeg", "gif", "bmp"], units=3, unit_attr=False, opts={"img_ref": ["relative", "relative", "dot"], "disp": [False, False, True]}),
     "odg": dict(types=["png", "jpeg", "gif", "bmp"], units=2, unit_attr=False, opts={"img_ref": ["relative", "relative", "dot"]}),
     "epub": dict(types=["png", "jpeg", "gif", "bmp"], units=3, unit_attr=False, opts={}),
-    "pdf": dict(types=["jpeg"], units=3, unit_attr=True, opts={}),
+    "pdf": dict(types=["jpeg"], units=3, unit_attr=True, opts={"flate_images": [False, False, True]}),
     "rtf": dict(types=["png", "jpeg"], units=3, unit_attr=True, opts={"hex_wrap": [0, 64, 128]}),
 }
 UNIT_VIEW = {"pptx", "odp", "pdf", "xlsx", "ods", "rtf"}  # page/slide/sheet formats: unit views concatenate to the document view
